@@ -1,6 +1,6 @@
 (* Correspondence entry point: one op name + arguments -> canonical observation.
    Extracted to OCaml (Extract.v) and driven by ocaml/driver.ml. *)
-From Ufw Require Import Base.Val Base.Bits Base.Errno Model.Crc Model.ByteBuffer Model.Endpoints Model.Varint Model.Ring Model.Slip Model.Lenp Model.Persist.
+From Ufw Require Import Base.Val Base.Bits Base.Errno Model.Crc Model.ByteBuffer Model.Endpoints Model.Varint Model.Ring Model.Slip Model.Lenp Model.Persist Model.BinFmt Gen.BfGen_LB.
 Local Open Scope string_scope.
 Local Open Scope N_scope.
 
@@ -360,6 +360,30 @@ Definition run_ps (op : string) (a : list val) : list val :=
     ps_run (ps_step_of ckind) st m (quads (argLN 9 a))
   else [VS "unknown-op"].
 
+(* ---------------- endian codecs (C15): the translated functions of the build's configuration ---------------- *)
+Fixpoint assoc {A} (k : string) (l : list (string * A)) : option A :=
+  match l with [] => None | (n, v) :: r => if String.eqb n k then Some v else assoc k r end.
+Definition sname (v : val) : string := match v with VS s => s | _ => "" end.
+Definition run_bf (op : string) (a : list val) : list val :=
+  let name := sname (arg 0 a) in
+  if String.eqb op "bf.ref" then
+    match assoc name bf_ref_table with
+    | Some f => [vint (f (map Z.of_N (argH 1 a)) (N.to_nat (argN 2 a)))]
+    | None => [VS "no-such-function"]
+    end
+  else if String.eqb op "bf.set" then
+    match assoc name bf_set_table with
+    | Some f => let '(m, p) := f (map Z.of_N (argH 1 a)) (N.to_nat (argN 2 a)) (argZ 3 a) in
+                [VH (map Z.to_N m); VN (N.of_nat p)]
+    | None => [VS "no-such-function"]
+    end
+  else if String.eqb op "bf.int" then
+    match assoc name bf_int_table with
+    | Some f => [vint (f (argZ 1 a))]
+    | None => [VS "no-such-function"]
+    end
+  else [VS "unknown-op"].
+
 Definition prefix_of (p s : string) : bool := String.prefix p s.
 
 Definition dispatch (op : string) (a : list val) : list val :=
@@ -371,4 +395,5 @@ Definition dispatch (op : string) (a : list val) : list val :=
   else if prefix_of "ep." op then run_ep op a
   else if prefix_of "lenp." op then run_lenp op a
   else if prefix_of "ps." op then run_ps op a
+  else if prefix_of "bf." op then run_bf op a
   else [VS "unknown-op"].
